@@ -758,6 +758,30 @@ fn explore_both(report: &mut Report, thorough: bool, seed: u64, which: &'static 
         st3.driver = format!("three instantiations: {}", st3.driver);
         report.add(st3);
     }
+    // three instantiations of a one-parameter definition with one field, every order (cheap enough for both
+    // properties' quick tiers)
+    {
+        let slice = crate::families::three_inst_slice(true);
+        report.add(sweep(
+            "D-generic slice: one field x three instantiations in every order, the parameter or associated type three levels down x two and three instantiations, and definitions with three parameters (<= 2 fields, <= 2 instantiations)",
+            &slice,
+            Duration::from_secs(120),
+            |s| json!({"program": s.program().to_source()}),
+            |s, ctx| {
+                if !wf5_ok(s) {
+                    ctx.exclude("WF5: parameter under compact instantiated with a non-compactable type");
+                    return;
+                }
+                let prog = s.program();
+                let class = match s.insts.iter().find_map(|a| coincidence(&prog.defs[G_D], a, &prog).err()) {
+                    Some(w) => format!("coincident-generic({})", &w[..3]),
+                    None => "generic-family".to_string(),
+                };
+                let case = Case::new(RegSrc::Prog(prog), sp.clone(), "D-generic, three instantiations of <Item>");
+                check(&case, &class, ctx);
+            },
+        ));
+    }
     // D-chain
     let mut chain = vec![Case::new(
         RegSrc::Polkadot { retain: None },
